@@ -45,6 +45,7 @@ func (o Op) String() string {
 type Engine struct {
 	idBuf, otherBuf []byte // reused id buffers of the single-link calls
 	txCount         int
+	sharedCtx       boltz.MutateContext
 
 	C    *core.Ctx
 	Cfg  Config
@@ -74,7 +75,12 @@ func NewEngine(c *core.Ctx, cfg Config) (*Engine, error) {
 	if err != nil {
 		return nil, err
 	}
-	return &Engine{C: c, Cfg: cfg, Sc: sc, Db: db, Path: path, M: NewModel(cfg), W: DefaultWeights(), Ghosts: map[string][]string{}, EmpPool: EmpIds, DeptPool: DeptIds}, nil
+	e := &Engine{C: c, Cfg: cfg, Sc: sc, Db: db, Path: path, M: NewModel(cfg), W: DefaultWeights(), Ghosts: map[string][]string{}, EmpPool: EmpIds, DeptPool: DeptIds}
+	if c.CaseIdx%4 >= 2 {
+		e.sharedCtx = boltz.NewMutateContext(context.Background())
+		c.Count("histories_on_one_mutate_context", 1)
+	}
+	return e, nil
 }
 
 func (e *Engine) Close() {
@@ -309,6 +315,11 @@ func (e *Engine) RunTx(ops []Op, keyPrefix string) *TxResult {
 		cancel()
 		callerCtx = boltz.NewMutateContext(cc)
 		e.C.Count("transactions_under_a_cancelled_context", 1)
+	}
+	if callerCtx == nil && e.sharedCtx != nil {
+		// one MutateContext for all transactions of this history, the rolled back ones included (a caller that keeps
+		// its request context): nothing a transaction learned or registered on it counts for the next one
+		callerCtx = e.sharedCtx
 	}
 	err := e.Db.Update(callerCtx, func(ctx boltz.MutateContext) error {
 		for i := range planned {
